@@ -86,3 +86,27 @@ def run_pipe_property(chk, me, streams, n_mut, matchers=None, oracle=None, extra
     if extra:
         extra(chk)
     return chk.finish(me)
+
+
+def fmt_tokens(fields, rename, render):
+    """the formatter section of a mapping file as model tokens (Drivers/D14.v parse_fmt); goes before the 'cfg' tokens"""
+    t = ['fmt']
+    for f in fields or []:
+        t += ['field', str(f)]
+    for a, b in (rename or {}).items():
+        if str(b) != '':
+            t += ['rename', str(a), str(b)]
+    for a, b in (render or {}).items():
+        t += ['render', str(a), str(b)]
+    return t
+
+
+def mask_oom(impl, model):
+    """where the model says a JSON / text form is outside its domain (token 'oom': timestamps beyond year 9999 ...)
+    the implementation's bytes are not compared; everything else is"""
+    if ' oom' not in model:
+        return impl
+    a, b = impl.split(' '), model.split(' ')
+    if len(a) != len(b):
+        return impl
+    return ' '.join('oom' if y == 'oom' else x for x, y in zip(a, b))
